@@ -606,7 +606,7 @@ def _run_kani_unit(here, repo, name, tier):
             r["samples"].append({"harness": "%s/%s" % (name, h["name"]), "complete": complete, "claim": h.get("claim"),
                                  "checks": [{"id": c["id"], "description": c["description"], "location": c["location"], "status": c["status"]} for c in ex_checks],
                                  "source": (meta["harness_fns"].get(h["name"]) or {}).get("text", "")[:1200]})
-    r["cmd"] = "; ".join(cmds)
+    r["cmd"] = _condense(cmds)
     r["wall_s"] = round(time.time() - t0, 1)
     # de-duplicate failures that several harnesses report identically
     seen = set()
@@ -627,6 +627,32 @@ def _run_kani_unit(here, repo, name, tier):
         r["status"] = "undecided"
         r["undecided_reason"] = "no obligations were generated"
     return r
+
+
+def _condense(cmds):
+    """one shell line per distinct flag set: `cd D && for h in a b c; do cargo kani ... --harness P::$h --exact ...; done`"""
+    groups = {}
+    order = []
+    for c in cmds:
+        m = re.match(r"(.* --harness )(\S*?::)?([A-Za-z0-9_]+)( --exact.*)$", c)
+        if not m:
+            groups.setdefault(c, [])
+            order.append(c) if c not in order else None
+            continue
+        key = (m.group(1), m.group(2) or "", m.group(4))
+        if key not in groups:
+            groups[key] = []
+            order.append(key)
+        groups[key].append(m.group(3))
+    out = []
+    for key in order:
+        if isinstance(key, tuple):
+            pre, mod, post = key
+            cd, rest = pre.split(" && ", 1)
+            out.append("%s && for h in %s; do %s%s$h%s; done" % (cd, " ".join(groups[key]), rest, mod, post))
+        else:
+            out.append(key)
+    return "; ".join(out)
 
 
 def _z_flags(flags):
